@@ -21,6 +21,7 @@ RULE = ("Hypothesis: 1-3 integer-tick well-formed sequences of unequal length pu
         "bool, not float); every emitted token matches an integer-only token grammar. Non-trivial: the pipeline built a Bar "
         "from a sequence shorter than its capacity or split tracks of unequal length into bars. Distinct by case digest.")
 RULE = RULE + " Round f: tokeniser ppqn in {None, 24, 48, 96, 120}; token grammar checked before detokenise."
+RULE = RULE + " Round h: tuplet ratios 5:4, 6:4, 7:4, 10:8, 9:8 and up to three dots."
 ASSUMPTIONS = ["an exception raised by a stage (BarException, TokenisationException, IndexError on empty content, ...) means the "
                "pipeline produced content that stage does not accept: the pipeline ends as inconclusive"]
 TIERS = {"quick": dict(shards=8, examples=500), "thorough": dict(shards=16, examples=6000)}
@@ -137,8 +138,10 @@ def check(case):
                 s.quantise(list(steps))
             elif name == "qnl":
                 base = util.get_note_durations(2 ** (a % 3), 2 ** (b % 3))
-                vals = [[24, 12, 6], [a], [4, 8, 36], base, base + util.get_tuplet_durations(base, 3, 2),
-                        base + util.get_dotted_note_durations(base, 1 + a % 2)][r % 6]
+                # tuplet ratios as musicians write them: triplets 3:2, quintuplets 5:4, sextuplets 6:4, septuplets 7:4, 10:8, 9:8
+                ratio = [(3, 2), (5, 4), (6, 4), (7, 4), (10, 8), (9, 8), (3, 2)][(a + b) % 7]
+                vals = [[24, 12, 6], [a], [4, 8, 36], base, base + util.get_tuplet_durations(base, *ratio),
+                        base + util.get_dotted_note_durations(base, 1 + a % 3)][r % 6]
                 if not _grid_ok(out, vals, where):
                     return out
                 s.quantise_note_lengths(list(vals), do_not_extend=flag)
